@@ -59,8 +59,8 @@ Theorem parse_total_taskset : forall dirty s, nul_terminated s ->
 Proof. intros dirty s [n Hs]. exact (parse_taskset_total dirty s n Hs). Qed.
 Print Assumptions parse_total_taskset.
 
-(* --- hwloc format: /repo eea9042 (comma count from index 0) --- *)
-Example model_follows_current_code : hwloc_sscanf_fixed = true /\ hwloc_sscanf_zeroed = false.
+(* --- hwloc format: /repo eea9042 (comma count from index 0) and 2d8cfb1 (no unwritten word) --- *)
+Example model_follows_current_code : hwloc_sscanf_fixed = true /\ hwloc_sscanf_zeroed = true.
 Proof. split; reflexivity. Qed.
 
 Theorem parse_total_hwloc : forall dirty s, nul_terminated s ->
@@ -71,27 +71,11 @@ Proof.
 Qed.
 Print Assumptions parse_total_hwloc.
 
-(* the accepted value must be determined by the string.  REFUTED for the code as
-   it is: "0x1," is accepted and ulongs[0] keeps what the bitmap held before
-   (hwloc_bitmap_reset_by_ulongs does not initialise, the loop ends at the NUL
-   after the comma without storing the accumulator). *)
-Theorem sscanf_trailing_comma_refuted :
-  exists s, nul_terminated s /\ forall d, parse_hwloc_gen true false d s = Ok (PSet (BM [d] false)).
-Proof.
-  exists (cstr "0x1,"). split; [|exact sscanf_trailing_comma_stale].
-  exists 4. apply (cstring_app (bytes_of_string "0x1,") []). repeat constructor; discriminate.
-Qed.
-Print Assumptions sscanf_trailing_comma_refuted.
-(* no _partial companion: excluding the class needs "every word is stored", not done;
-   the full statement holds for every string after patches/fix-C04-sscanf-unwritten-words.diff: *)
-Theorem parse_hwloc_deterministic_zeroed : forall d1 d2 s,
-  parse_hwloc_gen true true d1 s = parse_hwloc_gen true true d2 s.
+(* the accepted value is determined by the string alone (not by what the bitmap
+   held before): /repo 2d8cfb1 zeroes the words and stores the pending accumulator *)
+Theorem parse_hwloc_deterministic : forall d1 d2 s, parse_hwloc d1 s = parse_hwloc d2 s.
 Proof. exact (parse_hwloc_zeroed_deterministic true). Qed.
-Print Assumptions parse_hwloc_deterministic_zeroed.
-Theorem parse_total_hwloc_zeroed : forall dirty s, nul_terminated s ->
-  exists r, parse_hwloc_gen true true dirty s = Ok r /\ r <> PAssert.
-Proof. intros dirty s [n Hs]. apply (parse_hwloc_gen_total true true dirty s n Hs). discriminate. Qed.
-Print Assumptions parse_total_hwloc_zeroed.
+Print Assumptions parse_hwloc_deterministic.
 
 Example nul_terminated_non_vacuous : nul_terminated (cstr "0,2,64-65,100-").
 Proof. exists 14. apply (cstring_app (bytes_of_string "0,2,64-65,100-") []). repeat constructor; discriminate. Qed.
